@@ -547,6 +547,8 @@ def main_check(P, argv):
         trans.append("tools/cxx2gal.py (clang AST -> fuelled Gallina over the byte memory of lib/CMem.v)")
     if any(g.startswith("Gen_Heap") for g in gens):
         trans.append("tools/cxx2heap.py (clang AST -> fuelled Gallina over the object heap of lib/CHeap.v; record layouts re-read from the class definitions)")
+    if any(g.startswith("Gen_Plug") for g in gens):
+        trans.append("tools/gen/PlugC06.py (clang AST -> the function-pointer wiring of MemoryLeakWarningPlugin.cpp as tables of names)")
     cov["generated_from_source"] = sorted(gens)
     cov["trusted_base"] = trans + ["Coq 8.16.1 kernel (coqc, incl. vm_compute)", "tools/extract_src.py (translator-lite for constants/tables)",
                            "extraction (ExtrOcamlBasic only, no Extract Constant) + OCaml 4.13.1", "ocaml/glue.ml + ocaml/%s_driver.ml" % low,
